@@ -9,6 +9,7 @@ import (
 	"verifharness/drv/c03"
 	"verifharness/drv/c05"
 	"verifharness/drv/c06"
+	"verifharness/drv/c07"
 	"verifharness/drv/c09"
 	"verifharness/drv/c10"
 	"verifharness/drv/c12"
@@ -26,6 +27,7 @@ var cmds = map[string]func([]string) error{
 	"c03": c03.Main,
 	"c05": c05.Main,
 	"c06": c06.Main,
+	"c07": c07.Main,
 	"c09": c09.Main,
 	"c10": c10.Main,
 	"c12": c12.Main,
